@@ -617,3 +617,6 @@ func globalConstInit(g *ssa.Global) (string, bool) {
 func SortSites(p *ir.P, s []KeySite) {
 	sort.SliceStable(s, func(i, j int) bool { return s[i].Call.Pos() < s[j].Call.Pos() })
 }
+
+// VariadicElems exposes variadicElems.
+func VariadicElems(v ssa.Value) []ssa.Value { return variadicElems(v) }
